@@ -12,8 +12,15 @@ Import ListNotations.
    operation of the arithmetic (O : RoundOps) arbitrary.  NO hypothesis on the discriminant: cancellation in b^2 - 4ac does not
    harm the residual (normwise backward error of ONE root); the sign choice of the code is PROVED to avoid cancellation in
    b + sgn * sqrt(disc), with the rounded product conj(b) * sqrt(disc) the code tests.
-   The standard model excludes underflow / overflow, and that is not decoration: findings/C10-closed-form-scale.md (the real code
-   returns NaN for 1e-30 (x-1)(x-2)(x-3) and the wrong values 1.5, 1.333 for 1e-85 (x-1)(x-2)).
+   NO UNDERFLOW, NO OVERFLOW: [std_model eps O] demands the relative error bound at EVERY argument, so it is a statement about an
+   arithmetic with an unbounded exponent range (binary64 satisfies it only on operands whose exact results stay in the normal
+   range); [quad_ops_ok eps O a b c] (theorem quadratic_residual_local) demands it exactly at the arguments of the (at most) twelve
+   rounded operations performed on the input (a, b, c) -- for binary64: none of these operations underflows or overflows.  Every
+   theorem below carries one of the two hypotheses, and that is what excludes the recorded class KF-C10-H
+   (findings/C10-closed-form-scale.md: on the real code 1e-30 (x-1)(x-2)(x-3) gives NaN, 1e-85 (x-1)(x-2) gives 1.5 and 1.333,
+   because Complex::sqrt / pow / abs / div square their argument's components): see the Example
+   quadratic_hypotheses_exclude_KF_C10_H_example -- an arithmetic whose sqrt flushes small arguments to 0, as the code's does,
+   violates quad_ops_ok, returns the same wrong values and violates the bound.
    The simultaneous COMPONENTWISE form (both values roots of ONE quadratic with |db| <= k eps |b|) is false -- see
    quadratic_componentwise_simultaneous_refuted_example below (b = 0: the two returned values do not sum to 0); the true simultaneous
    statement is quadratic_simultaneous_backward_error. *)
@@ -33,7 +40,8 @@ Check linear_root_backward_error : forall (eps : R) (O : RoundOps) (c0 c1 : C),
     (Cmod d <= eps)%R /\ (c1 * r + c0 * (RtoC 1 + d))%C = RtoC 0.
 Print Assumptions linear_root_backward_error.
 
-(* degree 2, residual form: |a x^2 + b x + c| <= 16 eps (|a||x|^2 + |b||x| + |c|) for BOTH returned values, every a <> 0, b, c *)
+(* degree 2, residual form: |a x^2 + b x + c| <= 16 eps (|a||x|^2 + |b||x| + |c|) for BOTH returned values, every a <> 0, b, c
+   (std_model: relative error eps at EVERY argument = no underflow, no overflow: the class KF-C10-H is outside the hypothesis) *)
 Theorem quadratic_residual_bound : forall (eps : R) (O : RoundOps) (a b c : C),
   (0 <= eps <= / 100)%R -> std_model eps O -> a <> RtoC 0 ->
   exists r0 r1 : C, poly_solve (RoundRAo eps O) [c; b; a] false = Ok ([r0; r1], []) /\
@@ -73,6 +81,37 @@ Example quadratic_residual_local_bounded_range_nonvacuous :
   let e := (/ 1024)%R in
   (0 <= e <= / 100)%R /\ RtoC 1 <> RtoC 0 /\ ~ std_model e (sat_ops e) /\ quad_ops_ok e (sat_ops e) (RtoC 1) (RtoC (-5)) (RtoC 2).
 Proof. exact sat_ops_ok_lemma. Qed.
+
+(* ... and the backward form from the same local hypotheses: if none of the operations performed on (a, b, c) leaves the range in
+   which it has relative error eps, each returned value is an exact root of a quadratic within 16 eps, coefficient by coefficient *)
+Theorem quadratic_backward_error_local : forall (eps : R) (O : RoundOps) (a b c : C),
+  (0 <= eps <= / 100)%R -> a <> RtoC 0 -> quad_ops_ok eps O a b c ->
+  exists r0 r1 : C, poly_solve (RoundRAo eps O) [c; b; a] false = Ok ([r0; r1], []) /\
+    forall x : C, x = r0 \/ x = r1 ->
+      exists da db dc : C,
+        (Cmod da <= 16 * eps * Cmod a)%R /\ (Cmod db <= 16 * eps * Cmod b)%R /\ (Cmod dc <= 16 * eps * Cmod c)%R /\
+        ((a + da) * x * x + (b + db) * x + (c + dc))%C = RtoC 0.
+Proof. intros eps O a b c. exact (quadratic_backward_local_lemma eps O a b c). Qed.
+Check quadratic_backward_error_local : forall (eps : R) (O : RoundOps) (a b c : C),
+  (0 <= eps <= / 100)%R -> a <> RtoC 0 -> quad_ops_ok eps O a b c ->
+  exists r0 r1 : C, poly_solve (RoundRAo eps O) [c; b; a] false = Ok ([r0; r1], []) /\
+    forall x : C, x = r0 \/ x = r1 ->
+      exists da db dc : C,
+        (Cmod da <= 16 * eps * Cmod a)%R /\ (Cmod db <= 16 * eps * Cmod b)%R /\ (Cmod dc <= 16 * eps * Cmod c)%R /\
+        ((a + da) * x * x + (b + db) * x + (c + dc))%C = RtoC 0.
+Print Assumptions quadratic_backward_error_local.
+(* non-vacuity: quadratic_residual_local_nonvacuous, quadratic_residual_local_bounded_range_nonvacuous above *)
+
+(* the hypothesis is what excludes the range failures KF-C10-H: [flush_ops e] = the perturbing arithmetic whose Complex::sqrt returns 0
+   for arguments of modulus <= 1 (the real Complex::sqrt does so below 1e-162, where re^2 + im^2 underflows).  On (x^2 - 3x + 2)/10
+   (discriminant 0.01) quad_ops_ok FAILS -- 0 is within eps of no square root of a non-zero number --, the model returns
+   -b/2a (1+e)^3 = 1.5 (1+e)^3 as on the real code for 1e-85 (x-1)(x-2), and the bound of quadratic_residual_local is violated *)
+Example quadratic_hypotheses_exclude_KF_C10_H_example :
+  let e := (/ 4096)%R in let a := RtoC (/ 10) in let b := RtoC (-3 / 10) in let c := RtoC (2 / 10) in
+  ~ quad_ops_ok e (flush_ops e) a b c /\
+  exists r0 r1 : C, poly_solve (RoundRAo e (flush_ops e)) [c; b; a] false = Ok ([r0; r1], []) /\
+    ~ (Cmod (a * r0 * r0 + b * r0 + c)%C <= 16 * e * (Cmod a * Cmod r0 * Cmod r0 + Cmod b * Cmod r0 + Cmod c))%R.
+Proof. exact flush_excluded_4096. Qed.
 
 (* degree 2, backward form: each returned value is an EXACT root of a quadratic whose three coefficients are within 16 eps,
    relatively and componentwise (the perturbation depends on the root) *)
@@ -232,7 +271,7 @@ Example quadratic_forward_error_dominant_nonvacuous :
   RtoC 1 <> RtoC 0 /\ (8 * (Cmod (RtoC 1) * Cmod (RtoC 2)) <= Cmod (RtoC (-5)) * Cmod (RtoC (-5)))%R.
 Proof. exact forward_dominant_nonvacuous. Qed.
 
-(* ---- degree 3, the triple-root branch only (Proofs/RootsRoundCubic.v): when the COMPUTED d0 = fl(b^2 - 3ac) and
+(* ---- degree 3 (std_model again: no underflow / overflow -- KF-C10-H excluded), the triple-root branch only (Proofs/RootsRoundCubic.v): when the COMPUTED d0 = fl(b^2 - 3ac) and
    d1 = fl(2b^3 - 9abc + 27a^2 d) are both zero ([c_d0], [c_d1]: every operation rounded) cubic_solve returns three copies of
    r = fl(-b / fl(3a)) and r has a small residual, although the cubic need not be a perfect cube.  The Cardano branch -- where the
    recorded class KF-C10-F lives -- is not covered. *)
@@ -335,7 +374,8 @@ Example cubic_cardano_residual_nonvacuous :
   (0 <= 1)%R /\ (1 * (12 * e) <= / 10)%R /\ cardano_val a b c k = RtoC 1.
 Proof. exact cardano_nonvacuous_lemma. Qed.
 
-(* ---- an instance of std_model that REALLY ROUNDS, built from the model's own complex operators (Proofs/RootsRoundFlx.v):
+(* ---- an instance of std_model that REALLY ROUNDS (unbounded exponent range: no underflow, no overflow), built from the model's own
+   complex operators (Proofs/RootsRoundFlx.v):
    [flx_ops fsqrt] = cadd / csub / cmul / cdiv / cmul_r of Model/Complex.v (the formulas of src/complex/mod.rs) over the
    arithmetic AFlx of Proofs/RoundFlx.v (every real operation rounded to nearest-even at 53 bits, unbounded exponent; ux = 2^-53),
    through the normwise bounds of Proofs/ComplexRound.v:  eps_flx = (3/2) kappa(2u + u^2) <= 8 ux  (the quotient is the worst
